@@ -126,11 +126,12 @@ def expr_sig(eng, st, M, rid):
     return '%s [%s]' % (qx.op_skeleton(M), fine)
 
 def signatures(eng, st, pos, q, E, mm):
-    """{signature: (mismatch, row id)} for the mismatches of one answered query on one engine"""
-    sigs = {}
+    """{key: (signature, mismatch, row id, blamed sub-expression or None)} for the mismatches of one answered query on one
+    engine; key = (source of the blamed sub-expression or a position marker, row id) identifies the failure across engines"""
+    out = {}
     if E is None:
         kinds = '+'.join(sorted(set(m.kind for m in mm)))
-        return {'%s: %s' % (pos, kinds): (mm[0], c01.row_id(mm[0]))}
+        return {(pos, None): ('%s: %s' % (pos, kinds), mm[0], c01.row_id(mm[0]), None)}
     rows = [(m, c01.row_id(m)) for m in mm]
     perrow = pos in ('projT', 'filter', 'order') or (pos == 'subq' and q.fors[0][0] == 'o')
     todo = []
@@ -141,19 +142,56 @@ def signatures(eng, st, pos, q, E, mm):
             seen.add(rid)
             b = blame(eng, st, E, rid)
             if b:
-                for M in b: sigs.setdefault(expr_sig(eng, st, M, rid), (m, rid))
+                for M in b: out.setdefault((src(M), rid), (expr_sig(eng, st, M, rid), m, rid, M))
             else: todo.append((m, rid))
     else:
         r = proj_status(eng, st, E)
         bad = sorted(rid for rid, ok in r.items() if ok is False and rid != '?') if not isinstance(r, str) else []
         for rid in bad[:6]:
-            for M in blame(eng, st, E, rid): sigs.setdefault(expr_sig(eng, st, M, rid), (mm[0], rid))
-        if not sigs: todo = [(mm[0], c01.row_id(mm[0]))]
+            for M in blame(eng, st, E, rid): out.setdefault((src(M), rid), (expr_sig(eng, st, M, rid), mm[0], rid, M))
+        if not out: todo = [(mm[0], c01.row_id(mm[0]))]
     for m, rid in todo:
         # position-specific: does not reproduce as a projection
         if perrow and rid is not None and st['pids'].get(rid) is not None:
             cl = qx.operand_classes(st['ev'], E, qx.Env({'p': st['pids'][rid]}))
-            sigs.setdefault('%s: %s: %s [%s]' % (pos, m.kind, qx.op_skeleton(E), cl), (m, rid))
+            out.setdefault(('@%s:%s' % (pos, m.kind), rid), ('%s: %s: %s [%s]' % (pos, m.kind, qx.op_skeleton(E), cl), m, rid, None))
         else:
-            sigs.setdefault('%s: %s: %s' % (pos, m.kind, qx.op_skeleton(E)), (m, rid))
-    return sigs
+            out.setdefault(('@%s:%s' % (pos, m.kind), None), ('%s: %s: %s' % (pos, m.kind, qx.op_skeleton(E)), m, rid, None))
+    return out
+
+def fails_as_projection(eng, st, M, rid):
+    r = proj_status(eng, st, M)
+    return not isinstance(r, str) and r.get(rid) is False
+
+def _path(E, M):
+    """ancestors of M inside E, innermost first (E last); None if M is not a sub-expression"""
+    if E is M: return []
+    for c in E.a:
+        p_ = _path(c, M)
+        if p_ is not None: return p_ + [E]
+    return None
+def _replace(A, M, new):
+    if A is M: return new
+    if not A.a: return A
+    return X(A.op, A.t, [_replace(c, M, new) for c in A.a], A.v)
+
+def reattribute(eng, base, st, E, M, rid):
+    """M, a proper sub-expression of E blamed on engine `eng` for row rid, fails as a projection on the SQLite engine `base` as
+    well, while the whole query fails on `eng` only: the dialect-specific cause sits above M. The smallest ancestor whose
+    failure on `eng` (and not on SQLite) survives replacing M by a plain operand of the same type is blamed instead
+    (DESIGN section 1.5: attribution by replacing the offending subtree by a fresh leaf). [] if none is found."""
+    path = _path(E, M)
+    if not path: return []
+    leaves = qx.grammar_leaves(P).get(M.t, ())
+    for A in path:
+        for lf in leaves:
+            A2 = _replace(A, M, lf)
+            if fails_as_projection(eng, st, A2, rid) and not fails_as_projection(base, st, A2, rid):
+                return [(X2, expr_sig(eng, st, X2, rid)) for X2 in blame(eng, st, A2, rid)]
+    return []
+
+def failing_part(eng, st, E, rid):
+    """does some proper sub-expression of E fail on this engine on row rid (as projection)?"""
+    for c in c01.scalar_children(E):
+        if blame(eng, st, c, rid): return True
+    return False
